@@ -438,3 +438,89 @@ def target_default_snapshots():
 
 def targets():      # noqa: F811
     return _targets_before_snapshots() + [target_default_snapshots()]
+
+
+_targets_before_static_info = targets
+
+
+def target_static_information():
+    """`_set_element_static_information` (what registration writes into an element class): every table is a NEW dictionary of THIS
+    class (a class never writes into the tables it inherited, so changing or resetting one class's defaults cannot reach another),
+    every ParameterDefinition field lands in the table of that field under the definition's stripped symbol -- value, lower and
+    upper limit, fixed flag, unit, description --, sub-circuit definitions likewise for containers, `_valid_kwargs_keys` is exactly
+    the set of those symbols; a blank symbol / name / description, a blank or non-identifier parameter symbol and a symbol used
+    twice are refused, the duplicate BEFORE anything is written.  Real function on recording stand-ins with uninterpreted values."""
+    from pyvc import overload as O
+    from . import dataflow as DF
+    from .dataflow import T
+    REG = "circuit/registry"
+
+    def run(sess: Session):
+        class Element:
+            _parameter_default_value = {"inherited": 1.0}
+            _parameter_unit = {"inherited": "u"}
+
+        class Container(Element):
+            _subcircuit_default_value = {"inherited": None}
+
+        class PD:
+            def __init__(self, symbol, tag):
+                self.symbol, self.unit, self.description = symbol, f" unit[{tag}] ", f" description[{tag}] "
+                self.value, self.lower_limit, self.upper_limit, self.fixed = T.var(f"value[{tag}]"), T.var(f"lower[{tag}]"), T.var(f"upper[{tag}]"), T.var(f"fixed[{tag}]")
+
+        class SD:
+            def __init__(self, symbol, tag):
+                self.symbol, self.unit, self.description, self.value = symbol, f"unit[{tag}]", f"description[{tag}]", ("connection", tag)
+        warned = []
+        ns = {"Container": Container, "Element": Element, "warn": lambda *a, **k: warned.append(a), "issubclass": issubclass}
+        O.load(REG, ["_set_element_static_information"], ns)
+        fn = ns["_set_element_static_information"]
+        for is_container in (False, True):
+            K = type("K", (Container if is_container else Element,), {})
+            ps = [PD(" R ", "R"), PD("Y", "Y")]
+            ss = [SD("X_1", "X_1")] if is_container else []
+            fn(K, " Sy ", " name ", " description ", " R+Y ", ps, ss)
+            tag = "[container]" if is_container else "[element]"
+            own = K.__dict__
+            tables = ["_parameter_unit", "_parameter_description", "_parameter_default_value", "_parameter_default_lower_limit", "_parameter_default_upper_limit", "_parameter_default_fixed"]
+            sess.check("post", [], z3.BoolVal(all(t in own and isinstance(own[t], dict) and sorted(own[t]) == ["R", "Y"] for t in tables)), 0,
+                       label=f"every parameter table is a new dictionary of this class with exactly the stripped symbols{tag}")
+            sess.check("post", [], z3.BoolVal(Element._parameter_default_value == {"inherited": 1.0} and Element._parameter_unit == {"inherited": "u"} and Container._subcircuit_default_value == {"inherited": None}), 0,
+                       label=f"the tables of the base classes are not written to{tag}")
+            if not all(t in own and isinstance(own[t], dict) for t in tables):
+                continue
+            for p, sym in zip(ps, ("R", "Y")):
+                DF.eq_check(sess, f"default value of {sym} is the definition's value{tag}", own["_parameter_default_value"].get(sym), p.value)
+                DF.eq_check(sess, f"default lower limit of {sym} is the definition's lower limit{tag}", own["_parameter_default_lower_limit"].get(sym), p.lower_limit)
+                DF.eq_check(sess, f"default upper limit of {sym} is the definition's upper limit{tag}", own["_parameter_default_upper_limit"].get(sym), p.upper_limit)
+                DF.eq_check(sess, f"default fixed flag of {sym} is the definition's flag{tag}", own["_parameter_default_fixed"].get(sym), p.fixed)
+                sess.check("post", [], z3.BoolVal(own["_parameter_unit"].get(sym) == p.unit.strip() and own["_parameter_description"].get(sym) == p.description.strip()), 0, label=f"unit and description of {sym} (stripped){tag}")
+            want_keys = {"R", "Y"} | ({"X_1"} if is_container else set())
+            sess.check("post", [], z3.BoolVal(own.get("_valid_kwargs_keys") == want_keys), 0, label=f"_valid_kwargs_keys is exactly the set of parameter (and sub-circuit) symbols{tag}")
+            sess.check("post", [], z3.BoolVal((own.get("_symbol"), own.get("_name"), own.get("_description"), own.get("_equation")) == ("Sy", "name", "description", "R+Y")), 0, label=f"symbol, name, description and equation are stored stripped{tag}")
+            if is_container:
+                ok = all(t in own for t in ("_subcircuit_unit", "_subcircuit_description", "_subcircuit_default_value")) and own["_subcircuit_default_value"] == {"X_1": ("connection", "X_1")} \
+                    and own["_subcircuit_unit"] == {"X_1": "unit[X_1]"} and own["_subcircuit_description"] == {"X_1": "description[X_1]"}
+                sess.check("post", [], z3.BoolVal(ok), 0, label="a container gets its own sub-circuit tables with the definition's unit, description and default connection")
+            else:
+                sess.check("post", [], z3.BoolVal("_subcircuit_default_value" not in own), 0, label="a plain element gets no sub-circuit tables")
+        # refusals
+        def refused(args, exc):
+            K = type("K", (Element,), {})
+            try:
+                fn(K, *args)
+                return False, K
+            except exc:
+                return True, K
+        good = [PD("R", "R")]
+        for args, exc, why in (((" ", "n", "d", "e", good, []), ValueError, "a blank symbol"), (("S", " ", "d", "e", good, []), ValueError, "a blank name"), (("S", "n", " ", "e", good, []), ValueError, "a blank description"),
+                               (("S", "n", "d", "e", [PD(" ", "x")], []), ValueError, "a blank parameter symbol"), (("S", "n", "d", "e", [PD("1a", "x")], []), KeyError, "a parameter symbol that is not an identifier")):
+            ok, _ = refused(args, exc)
+            sess.check("post", [], z3.BoolVal(ok), 0, label=f"{why} is refused with {exc.__name__}")
+        ok, K = refused(("S", "n", "d", "e", [PD("R", "a"), PD("R", "b")], []), KeyError)
+        sess.check("post", [], z3.BoolVal(ok and "_parameter_default_value" not in K.__dict__ and "_symbol" not in K.__dict__), 0, label="a symbol used twice is refused with KeyError before anything is written to the class")
+    return (f"{REG}:_set_element_static_information", REG, "_set_element_static_information", run)
+
+
+def targets():      # noqa: F811
+    return _targets_before_static_info() + [target_static_information()]
